@@ -473,6 +473,11 @@ func cmdDriveNetIndex(args []string) error {
 		keep = append(keep, []string{"http://" + host + "^", "|http://" + host + "|", "://" + host + "^", "||" + host + "^$important"}[i%4])
 		reqs = append(reqs, reqJSON{URL: "hostname:" + host}, reqJSON{URL: "hostname:sub." + host})
 	}
+	// two rules that differ in nothing but the letter case of a case-sensitive pattern are two rules (both too short for the
+	// shortcut index, so they sit in the table that is scanned sequentially and refuses duplicates)
+	keep = append(keep, "/Ad^$match-case,important", "/ad^$match-case,important", "/AD^$match-case")
+	reqs = append(reqs, reqJSON{URL: "http://case.example/Ad", FrameURL: "", Cpt: "script"}, reqJSON{URL: "http://case.example/ad", FrameURL: "", Cpt: "script"},
+		reqJSON{URL: "http://case.example/AD", FrameURL: "http://case.example/", Cpt: "image"})
 	// three lists: plain; with a byte order mark and a title line; with CRLF line ends.  Where a rule sits in its
 	// list (and so its storage index) must not matter.
 	third := len(keep) / 3
